@@ -87,13 +87,14 @@ PROPS["C01"] = dict(
     contracts=["stdlib", "util_timeout", "util_retry", "util_url", "connectionpool", "pool_queue"],
     trusted_base=COMMON_TRUSTED + ["sequential semantics (no other thread closes the pool between checkout and return; concurrency is C02)"],
     assumptions=["connection boundary (HTTPConnection.request/getresponse/close, _validate_conn, _prepare_proxy): assumed contracts - may raise any exception of the shapes listed in specs/retry.py:boundary_exception",
-                 "HTTPConnectionPool._get_conn/_put_conn and BaseHTTPResponse.drain_conn are used at their lease-accounting contracts"],
-    not_decided=["asynchronous exceptions between two bytecodes of pure code", "the response side (release_conn/close/_error_catcher) and the queue-level invariant are separate obligations (in progress)"],
+                 "urlopen uses _get_conn/_put_conn at their lease-accounting contracts; the real bodies of both are verified against those contracts (contracts/pool_queue.py, with self.pool volatile) - the queue itself (queue.LifoQueue get/put) and BaseHTTPResponse.drain_conn stay assumed"],
+    not_decided=["asynchronous exceptions between two bytecodes of pure code", "the multiset view of the queue ('holds no connection twice') is not a discharged invariant: it follows from the assumed queue contract plus put-only-what-was-checked-out",
+                 "the response side is covered by HTTPResponse.release_conn's contract (C02/C03 lists), not by an invariant over all response methods"],
     level_text="Deductive proof over the real body of HTTPConnectionPool.urlopen (every path: all exception classes of the running interpreter's hierarchy at every callee, "
                "retry/redirect/status recursion at the function's own contract): on every exceptional exit no lease taken by the call is outstanding, on normal exit the only outstanding lease is "
                "the one held by the returned response, a slot is only put back by the call that took it, and no raw OSError/ssl/http.client exception escapes (all are translated to urllib3 exceptions).",
     level_note="Known finding D14 (exception before checkout puts back a None never taken) is reported as KNOWN-FINDING and proved absent outside its recorded region. "
-               "Assumed: the connection-boundary contracts, sequential use of the pool; the queue invariant and the response-side release are being brought under contract next.",
+               "Assumed: the connection-boundary contracts and the queue's own get/put contract; _get_conn/_put_conn bodies are proved against the lease contracts urlopen relies on.",
 )
 
 PROPS["C08"] = dict(
